@@ -33,9 +33,9 @@ Record cop := mkOp {
 #[global] Instance eta_cop : Settable _ :=
   settable! mkOp <o_mid; o_kind; o_deadline; o_status; o_reply; o_items; o_taken; o_chan; o_rx; o_got; o_res; o_tmo; o_call>.
 
-Record fixes := mkFx { fix7 : bool; fix8 : bool; fix9 : bool; fix15 : bool; fix16 : bool }.
-Definition as_is := mkFx false false false false false.
-Definition repaired := mkFx true true true true true.
+Record fixes := mkFx { fix5 : bool; fix7 : bool; fix8 : bool; fix9 : bool; fix15 : bool; fix16 : bool }.
+Definition as_is := mkFx false false false false false false.
+Definition repaired := mkFx true true true true true true.
 
 Inductive dstatus := Running | EndedOk | EndedErr | EndedPanic.
 Record st := mkSt {
@@ -136,7 +136,10 @@ Definition step (s : st) (e : ev) : st :=
       match alookup (r_mid r) (smap s) with
       | Some o =>
         match r_kind r with
-        | ROther => end_driver EndedPanic (s0 <| processed ::= fun l => l ++ [(r, None)] |>)   (* panic!("unrecognized op id") *)
+        | ROther =>
+            let s1 := s0 <| processed ::= fun l => l ++ [(r, None)] |> in
+            if fix5 (fx s) then s1                                  (* repair F5: log and drop *)
+            else end_driver EndedPanic s1                           (* panic!("unrecognized op id") *)
         | _ =>
           let alive := match getop s o with Some c => o_rx c | None => false end in
           let s1 := if alive then updop o (fun c => c <| o_items ::= fun l => l ++ [r] |>) s0 else s0 in
